@@ -631,6 +631,157 @@ def gen_gauss_exact(rng, n, kind):
     return U[n:] if rng.random() < 0.5 else U[:n]
 
 
+# --------------------------------------------------------------------------- (S) / (T) / (B) / (A) robustness
+
+ARRAY_KINDS = ['int64', 'int32', 'float32', 'float64', 'complex64', 'complex128', 'fortran', 'noncontiguous']
+SINGLE_TOL = 1e-5
+
+
+def typed(A, kind):
+    """the same exactly representable values as another array type (None if they do not fit)"""
+    A = np.asarray(A, dtype=complex)
+    if kind in ('int64', 'int32'):
+        if np.abs(A.imag).max() != 0 or np.abs(A.real - np.round(A.real)).max() != 0:
+            return None
+        return A.real.astype(kind)
+    if kind in ('float32', 'float64'):
+        if np.abs(A.imag).max() != 0:
+            return None
+        if kind == 'float32' and np.abs(A.real.astype(np.float32).astype(float) - A.real).max() != 0:
+            return None
+        return A.real.astype(kind)
+    if kind == 'complex64':
+        B = A.astype(np.complex64)
+        return B if np.abs(B.astype(complex) - A).max() == 0 else None
+    if kind == 'complex128':
+        return A.copy()
+    if kind == 'fortran':
+        return np.asfortranarray(A)
+    if kind == 'noncontiguous':
+        big = np.zeros((2 * A.shape[0], 2 * A.shape[1]), dtype=complex)
+        big[::2, ::2] = A
+        return big[::2, ::2]
+    raise AssertionError(kind)
+
+
+def rebuild_error(fn, val, ref):
+    """reconstruction error of a returned decomposition against the float64 reference matrix `ref`"""
+    if fn == 'square':
+        dec, diag = val
+        n = ref.shape[0]
+        return max(err(np.diag(np.asarray(diag, dtype=complex)) @ np_U(n, dec) - ref), err(np.abs(diag) - 1))
+    if fn == 'givens':
+        dec, V, diag = val
+        m, n = ref.shape
+        D = np.zeros((m, n), dtype=complex)
+        D[range(m), range(m)] = diag
+        V = np.asarray(V, dtype=complex)
+        return max(err(V @ ref @ np_U(n, dec).conj().T - D), err(np.abs(diag) - 1), err(V @ V.conj().T - np.eye(m)))
+    dec, left_dec, diag, left_diag = val
+    n = ref.shape[0]
+    U = np_U_gauss(n, dec)
+    V = (np.diag(left_diag) @ np_U(n, left_dec) @ np.diag(diag)).T
+    target = np.zeros((n, 2 * n), dtype=complex)
+    target[range(n), range(n, 2 * n)] = diag
+    return max(err(V @ ref @ U.conj().T - target), err(np.abs(diag) - 1), err(np.abs(left_diag) - 1))
+
+
+def stream_robust(ctx):
+    s = Stream('robust', '(T) exactly representable isometries / Bogoliubov matrices passed as int64, int32, float32, float64, '
+               'complex64, complex128, Fortran-ordered and non-contiguous arrays (types rejected on a probe input are excluded '
+               'for the run): reconstruction oracle against the float64 values; (S) the argument is not modified, results do not '
+               'change when the first result is overwritten and the function is called again; (B) rotations by 2e-6 next to O(1) '
+               'entries; (A) purely imaginary matrices; distinct = distinct (function, matrix, type)')
+    of = ctx.of
+    rng = rng_for(ctx.seed, 'c11-robust')
+    N = budget(ctx.tier, 120, 900)
+    if ctx.drift:
+        N = max(N, 400)
+    fns = {'square': lambda A: of.linalg.givens_decomposition_square(A),
+           'givens': lambda A: of.linalg.givens_decomposition(A),
+           'gauss': lambda A: of.linalg.fermionic_gaussian_decomposition(A)}
+    probes = {'square': np.eye(2), 'givens': np.eye(2)[:1], 'gauss': np.array([[0.0, 1.0]])}
+    acc = {}
+    for fn in fns:
+        acc[fn] = []
+        for k in ARRAY_KINDS:
+            try:
+                fns[fn](typed(probes[fn], k))
+                acc[fn].append(k)
+            except Exception:
+                s.count('type-rejected:%s:%s' % (fn, k))
+    for t in range(N):
+        fn = rng.choice(['square', 'givens', 'givens', 'gauss'])
+        n = rng.choice([2, 3, 3, 4, 5])
+        k = rng.choice(acc[fn]) if acc[fn] else None
+        if k is None:
+            continue
+        if k in ('int64', 'int32', 'float32'):
+            fam = rng.choice(['realperm', 'realperm', 'identity', 'antidiag'])
+        elif k == 'complex64':
+            fam = rng.choice(['realperm', 'perm', 'antidiag'])
+        elif k == 'float64':
+            fam = rng.choice(['realperm', 'realdense', 'realblock', 'tinyrot'])
+        else:
+            fam = rng.choice(['perm', 'realdense', 'realblock', 'dense', 'tinyrot', 'imag', 'identity'])
+        if fn == 'gauss':
+            n = rng.choice([1, 2, 3])
+            W = gen_gauss_exact(rng, n, 'realgroup' if k in ('int64', 'int32', 'float32', 'float64') else
+                                rng.choice(['permlike', 'bcs', 'group', 'realgroup']))
+            if zrank([r[:n] for r in W]) < n:
+                continue        # F11 class: not the subject of this stream
+            A = znp(W, 2 * n)
+            fam = 'bogoliubov'
+        else:
+            if fam == 'tinyrot':
+                U = rand_unitary(rng, n, 'realdense')
+                if n >= 2:
+                    i, j = rng.sample(range(n), 2)
+                    tt = F(1, 10 ** 6)
+                    U = zmul(zrot(n, i, j, (1 - tt * tt) / (1 + tt * tt), 2 * tt / (1 + tt * tt), rng.choice(PHASES_REAL)), U)
+            elif fam == 'imag':
+                U = [[x * Z(0, 1) for x in r] for r in rand_unitary(rng, n, 'realdense')]
+            else:
+                U = rand_unitary(rng, n, fam)
+            m = n if fn == 'square' else rng.randint(1, n)
+            A = znp(U[:m], n)
+        At = typed(A, k)
+        if At is None:
+            s.count('values-do-not-fit-type')
+            continue
+        c = {'fn': fn, 'family': fam, 'type': k, 'matrix': [[[x.real, x.imag] for x in r] for r in A]}
+        s.case(c)
+        s.count('fn:' + fn)
+        s.count('type:' + k)
+        s.count('family:' + fam)
+        A0 = At.copy()
+        tol = SINGLE_TOL if k in ('float32', 'complex64') else TOL
+        try:
+            val = fns[fn](At)
+        except Exception as e:
+            s.violate('%s(%s array) raised %s: %s' % (fn, k, type(e).__name__, e), c, {})
+            continue
+        s.float_comparisons += 3
+        e = rebuild_error(fn, val, np.asarray(A, dtype=complex))
+        if e > tol:
+            s.violate('%s(%s array): the returned decomposition does not reconstruct the input (max deviation %.3g)'
+                      % (fn, k, e), c, {'returned': impl_summary(val)})
+        if not np.array_equal(At, A0) or At.dtype != A0.dtype:
+            s.violate('%s modified its argument' % fn, c, {})
+        # (S) overwrite the returned arrays, call again
+        first = impl_summary(val)
+        try:
+            for x in val:
+                if isinstance(x, np.ndarray) and x.flags.writeable and not np.shares_memory(x, At):
+                    x[...] = 5
+            again = impl_summary(fns[fn](At))
+            if again != first:
+                s.violate('%s returns a different decomposition after its first result was overwritten in place' % fn, c, {})
+        except Exception as e:
+            s.violate('%s: second call raised %s: %s' % (fn, type(e).__name__, e), c, {})
+    return s
+
+
 # --------------------------------------------------------------------------- streams
 
 
@@ -682,9 +833,9 @@ def stream_schedule(ctx):
             s.disagree('schedule (index pairs per layer)', case, impl, model)
         for rq in rqs:
             add_spec(s, spec_batch, case, rq)
-    for n in range(1, nmax + 1):
+    for n in list(range(1, nmax + 1)) + [17]:
         one('square', n, n)
-        for m in range(1, n + 1):
+        for m in (range(1, n + 1) if n <= nmax else (1, 8, 16, 17)):
             one('givens', m, n)
         one('gauss', n, 2 * n)
     answers = dr.run([r for _, r, _ in spec_batch])
@@ -907,4 +1058,4 @@ def replay(ctx, payload):
 
 
 def run(ctx):
-    return [stream_schedule(ctx), stream_elements(ctx), stream_structured(ctx)]
+    return [stream_schedule(ctx), stream_elements(ctx), stream_structured(ctx), stream_robust(ctx)]
